@@ -15,6 +15,7 @@ REAL = "real code from the /repo working tree"
 PROPERTIES = {}
 NOT_APPLICABLE = {}
 ENGINE_KINDS = {
+    "routing": "Alignment.align_molecules with the optimiser entry point replaced by a recording stub; Manager.align_molecules with Alignment.align_molecules replaced by a recording stub (real files); restraint guessers by enumeration",
     "system": "System recognition on generated files: scheduler-chosen topology load order with observers between loads and injected failing loads; instance list derived from the file as oracle",
     "alias": "operation histories over an object graph (molecules, copies, deep copies, residues, atoms, live views, System hand-outs through real files, Alignment-stored molecules) checked after every operation against an aliasing model",
     "grosys": "one SystemGro shared by several live iterators and one-shot indexed/sliced accesses; seeded scheduler decides which consumer steps next; independent parse of the file as oracle",
@@ -349,3 +350,26 @@ _reg("C11", engine="system", level="exploration",
      components={"System / SystemGro": REAL, "MoleculeTop / read_topology / ItpFile": REAL, "Molecule": REAL, "files": "real files on tmpfs"},
      schedule_dimension="order of topology loads, position of observers and of failing loads",
      probes=["second_or_later_load"])
+
+
+_reg("C10", engine="routing", level="exploration",
+     runs={"quick": 2400, "thorough": 120000}, block=20,
+     technique="interposed recording stubs at the component boundaries (optimiser entry point; per-species alignment) under seeded generation of molecule pairs, restraint lists and per-species option dictionaries with injected malformed options; enumeration of all 40x40 residue-length pairs for the splitter",
+     level_text=("Three sampled workloads.  (1) Alignment level: what the optimiser receives is recorded by a stub and each restraint "
+                 "is checked BY COORDINATES to designate the atoms the user meant, for either molecule larger, ties, random hydrogens, "
+                 "filter on/off; dropped exactly when the fixed-side atom is a filtered hydrogen, order kept.  (2) Guessers: run 0 "
+                 "enumerates all 1600 residue-length pairs (with and without offsets); random multi-residue molecules for the protein "
+                 "guesser incl. unequal residue counts (must be refused).  (3) Manager level on generated multi-species systems loaded "
+                 "from real files: per-species restraints / deformation types / hydrogen flags must reach exactly that species' "
+                 "Alignment object; unknown names, species without an end molecule and malformed values must raise before the first "
+                 "alignment call."),
+     level_note=("Stubs replace minimize_molecules (level 1) and Alignment.align_molecules (level 3) because the property is about "
+                 "what reaches them; everything before them is real code.  A one-atom end molecule is not generated at level 1 "
+                 "(the alignment returns before the optimiser).  The guesser part is plain enumeration of a pure function."),
+     rule="one run = one alignment call / one guesser call (run 0: all 1600 pairs) / one manager call; non-trivial = it completed; distinct = distinct (mode, role swap, filter, kept/given, outcome) signatures",
+     components={"Alignment.align_molecules / remove_hydrogens / guessers": REAL, "Manager option parsing": REAL,
+                 "minimize_molecules": "recording STUB (level 1)", "Alignment.align_molecules": "recording STUB (level 3)",
+                 "System / parsers": REAL + " (real files on tmpfs)"},
+     schedule_dimension="none (configuration space: roles, filters, option dictionaries, injected malformed options)",
+     probes=["role_swap_with_restraints", "restraint_dropped_with_hydrogen", "reindexing_with_restraints", "all_1600_length_pairs",
+             "several_species_routed", "pre_parsed_restrictions"])
